@@ -32,7 +32,7 @@ ASSUMPTIONS = [
 ]
 REQUIRED_CLASSES = ["lstsq:tall", "lstsq:wide", "lstsq:square", "lstsq:rank-deficient", "lstsq:dropped-by-rcond",
                     "lstsq:dropped-by-cutoff", "lstsq:rcond=0", "lstsq:settings-at-both-places", "step:square", "step:tall", "step:wide", "step:broyden",
-                    "views:scalar+rescaled", "views:vector+native", "views:reused-after-change", "scaling"]
+                    "views:scalar+rescaled", "views:vector+native", "views:reused-after-change", "views:point-on-a-limit", "step:start-on-a-limit", "scaling"]
 RCONDS = [None, 1e-10, 1e-5, 1e-2, 0.5, 0.0]      # 0.0 = keep every non-zero singular value
 
 
@@ -161,6 +161,7 @@ def step_cases(draw):
             "vweights": [draw(st.sampled_from([1.0, 1.0, 0.5, 3.0, 10.0, 0.01])) for _ in range(n)],
             "tweights": [draw(st.sampled_from([1.0, 1.0, 2.0, 0.1, 25.0])) for _ in range(m)],
             "limits": [[-1e3, 1e3] for _ in range(n)] if draw(st.booleans()) else None,
+            "start_on_limit": draw(st.sampled_from([None, None, "upper", "lower"])),
             "max_step": None, "tols": [1e-8] * m, "n_steps_max": 20,
             "broyden": draw(st.sampled_from([False, False, True, 2]))}
     return spec
@@ -170,9 +171,21 @@ def exec_step(ctx, spec):
     f, _ = OF.make_function(spec)
     n, m = spec["n"], spec["m"]
     spec = dict(spec, targets=[float(v) for v in f(np.array(spec["xstar"]))])
+    on_limit = False
+    if spec.get("start_on_limit") and all(w == 1.0 for w in spec["vweights"]) and n <= m:
+        # every knob starts exactly ON a limit, on the side the (unique) solution is not: the step goes inward.
+        # Unit knob weights only ((limit / w) * w may round to one ulp outside and trip the limit check); square / tall
+        # systems only (for a wide system the minimum-norm step need not point towards the drawn solution).
+        x0 = np.array(spec["x0"], dtype=float)
+        xs = np.array(spec["xstar"], dtype=float)
+        lims = [[float(b) - 50.0, float(a)] if b <= a else [float(a), float(b) + 50.0] for a, b in zip(x0, xs)]
+        spec = dict(spec, limits=lims)
+        on_limit = True
     cls = ["step", "step:" + ("tall" if m > n else "wide" if n > m else "square")]
     if spec["broyden"]:
         cls.append("step:broyden")
+    if on_limit:
+        cls.append("step:start-on-a-limit")
     wts = any(w != 1.0 for w in spec["vweights"] + spec["tweights"])
     if wts:
         cls.append("step:weights")
@@ -221,8 +234,14 @@ def view_cases(draw):
             "limits": lims, "max_step": None, "tols": [1e-9] * m,
             "targets": [draw(st.floats(-1, 1)) for _ in range(m)],
             "rescale": draw(st.sampled_from([[0.0, 1.0], [-1.0, 1.0], [2.0, 5.0], [-3.0, -1.0]])),
-            "point": [draw(st.floats(0.1, 0.9)) for _ in range(n)],     # position inside the limits (fraction)
+            # position inside the limits (fraction); the end points themselves are included: a knob sitting ON a limit
+            # is where a one-sided finite-difference probe has to leave the box
+            "point": [draw(st.one_of(st.floats(0.1, 0.9), st.floats(0.1, 0.9), st.sampled_from([0.0, 1.0])))
+                      for _ in range(n)],
             "probe": [draw(st.floats(-1e3, 1e3)) for _ in range(n)]}
+    # a knob with weight w is written as (limit / w) * w, which can land one ulp outside the limit and trip the limit
+    # check: only unit-weight knobs are put exactly on a limit
+    spec["point"] = [p if (w == 1.0 or 0.0 < p < 1.0) else 0.5 for p, w in zip(spec["point"], spec["vweights"])]
     return spec
 
 
@@ -235,6 +254,8 @@ def exec_view(ctx, spec):
     wts = bool(np.any(wv != 1) or np.any(wt != 1))
     rendered = {k: spec[k] for k in ("family", "n", "m", "vweights", "tweights", "limits", "rescale", "point")}
     classes = ["views", "scaling"]
+    if any(p in (0.0, 1.0) for p in spec["point"]):
+        classes.append("views:point-on-a-limit")
     try:
         b = OF.build(spec)
     except Exception as e:
